@@ -174,6 +174,10 @@ def run_unit(name, scratch, mutate=None, quiet=False):
                     ent = ur.linemap[ln - 1][0]
                 if ent is None or ent.kind != 'fn' or ent.trusted:
                     continue
+                if re.search(r'bitwise (OR|AND) for bools', h['message']) and not getattr(ent, 'bool_compound', False):
+                    ent.bool_compound = True          # D36 (vlib/unit.py): rewritten with the short-circuit operator, operand evaluated first
+                    added = True
+                    continue
                 if ent.spec and re.search(r'\bensures\b', ent.spec):
                     continue      # a function under contract must not be assumed silently
                 ent.trusted = True
